@@ -1,12 +1,98 @@
+// upfcheck decides the go-upf properties C01..C20 by static analysis of the repository's
+// current source.  See /verif/DESIGN.md.
 package main
 
 import (
+	"encoding/json"
+	"flag"
 	"fmt"
-	"golang.org/x/tools/go/packages"
+	"os"
+	"path/filepath"
+	"runtime/debug"
+	"sort"
+	"strconv"
+	"time"
+
+	"upfcheck/internal/core"
+	"upfcheck/internal/rules"
 )
 
 func main() {
-	cfg := &packages.Config{Mode: packages.LoadAllSyntax, Dir: "/repo", Env: nil}
-	pkgs, err := packages.Load(cfg, "./...")
-	fmt.Println(len(pkgs), err)
+	prop := flag.String("prop", "", "property id (C01..C20)")
+	tier := flag.String("tier", "quick", "quick|thorough")
+	repo := flag.String("repo", "/repo", "repository root")
+	verif := flag.String("verif", "/verif", "verification root (known_findings.json, evidence/)")
+	out := flag.String("out", "", "evidence directory (default <verif>/evidence)")
+	explain := flag.String("explain", "", "pretty-print a replay file")
+	list := flag.Bool("list", false, "list implemented properties")
+	flag.Parse()
+
+	if *list {
+		var ids []string
+		for id := range rules.Registry {
+			ids = append(ids, id)
+		}
+		sort.Strings(ids)
+		for _, id := range ids {
+			fmt.Println(id)
+		}
+		return
+	}
+	if *explain != "" {
+		os.Exit(doExplain(*explain, *repo))
+	}
+	rule, ok := rules.Registry[*prop]
+	if !ok {
+		fmt.Fprintf(os.Stderr, "unknown property %q\n", *prop)
+		os.Exit(2)
+	}
+	if *out == "" {
+		*out = filepath.Join(*verif, "evidence")
+	}
+	seed, _ := strconv.ParseInt(os.Getenv("VERIF_SEED"), 10, 64)
+
+	t0 := time.Now()
+	p, err := core.Load(*repo)
+	var ctx *core.Ctx
+	if err != nil {
+		// fail closed: the property cannot be decided on a tree that does not load
+		ctx, _ = core.NewCtx(nil, *prop, *tier, seed, *out, "")
+		ctx.Explain = "analysis error: the repository could not be loaded/type-checked"
+		ctx.Anchor("LOAD", err.Error())
+		os.Exit(ctx.Finish())
+	}
+	p.LoadSecs = time.Since(t0).Seconds()
+	ctx, err = core.NewCtx(p, *prop, *tier, seed, *out, filepath.Join(*verif, "known_findings.json"))
+	if err != nil {
+		fmt.Fprintln(os.Stderr, err)
+		os.Exit(2)
+	}
+	func() {
+		defer func() {
+			if r := recover(); r != nil {
+				ctx.Anchor("PANIC", fmt.Sprintf("checker panic: %v\n%s", r, debug.Stack()))
+			}
+		}()
+		rule(ctx)
+	}()
+	os.Exit(ctx.Finish())
+}
+
+func doExplain(path, repo string) int {
+	b, err := os.ReadFile(path)
+	if err != nil {
+		fmt.Fprintln(os.Stderr, err)
+		return 2
+	}
+	var f core.Finding
+	if err := json.Unmarshal(b, &f); err != nil {
+		fmt.Fprintln(os.Stderr, err)
+		return 2
+	}
+	fmt.Printf("property %s, rule %s (%s)\nkey      %s\nat       %s\n%s\n", f.Property, f.Rule, f.Kind, f.Key, f.Pos, f.Msg)
+	for _, s := range f.Path {
+		fmt.Printf("    %s\n", s)
+	}
+	core.PrintExcerpt(repo, f.Pos)
+	return 0
 }
